@@ -171,6 +171,23 @@ Theorem C17_wrong_start_leaves_nothing : forall b s s' o,
 Proof. exact ctl_wrong_start_leaves_nothing. Qed.
 Print Assumptions C17_wrong_start_leaves_nothing.
 
+(* TASK_FAILED at start-up leaves no process of the group: at once after a wrong start state or the
+   start-up timeout (C17-k, C17-m) ... *)
+Theorem C17_failed_startup_leaves_nothing : forall b s a s' o,
+  a = APollBad \/ a = APollTimeout ->
+  cstep b s a = (s', o) -> statuses o = [FAILED] ->
+  c_gc s' = false /\ is_run (c_proc s') = false /\ c_phase s' = CEnd /\ c_active s' = false.
+Proof. exact ctl_failed_startup_leaves_nothing. Qed.
+Print Assumptions C17_failed_startup_leaves_nothing.
+
+(* ... and after a failed dial through the TERM/INT/KILL escalation to the whole group, which
+   C17_escalation_bounded bounds and C17_ctl_no_survivor completes *)
+Theorem C17_failed_dial_escalates : forall b s s' o,
+  cstep b s ADialTimeout = (s', o) -> statuses o = [FAILED] ->
+  esc_ok s' /\ c_tgt s' = ToGroup /\ sigs o = [TERM] /\ c_active s' = false.
+Proof. exact ctl_failed_dial_escalates. Qed.
+Print Assumptions C17_failed_dial_escalates.
+
 (* what remains (recorded, C17-j): a KILL before the dial returned is refused — the task goes on starting *)
 Theorem C17_kill_before_dial_refused :
   let '(s, t) := crun nbeh cinit [ALaunch; AKill] in
